@@ -113,6 +113,9 @@ struct Stream {
     rx_reset: Option<u64>,
     rx_reset_seen: bool,
     rx_stopped: Option<u64>,
+    /// the transport fails reads on THIS stream with a connection-level error while the connection itself looks healthy
+    /// to every other call (what h3-quinn's own InternalError, or a timeout first noticed on one stream, looks like)
+    rx_conn_fault: Option<String>,
     rx_w: Vec<Waker>,
     // h3 -> peer
     tx_fin: bool,
@@ -213,6 +216,17 @@ impl Net {
             .map(|(id, s)| (*id, s.rx.iter().map(|b| b.len()).sum::<usize>()))
             .filter(|(_, n)| *n > 0)
             .collect()
+    }
+
+    /// Reads on stream `sid` fail from now on with a connection-level error of the given kind ("internal" | "timeout").
+    pub fn fault_stream_reads(&self, sid: u64, kind: &str) {
+        let mut g = self.lock();
+        if let Some(s) = g.streams.get_mut(&sid) {
+            s.rx_conn_fault = Some(kind.to_string());
+            for w in s.rx_w.drain(..) {
+                w.wake();
+            }
+        }
     }
 
     pub fn lock(&self) -> std::sync::MutexGuard<'_, NetState> {
@@ -498,6 +512,13 @@ impl quic::RecvStream for SimRecv {
         if let Some(code) = s.rx_reset {
             s.rx_reset_seen = true;
             return Poll::Ready(Err(StreamErrorIncoming::StreamTerminated { error_code: code }));
+        }
+        if let Some(k) = s.rx_conn_fault.clone() {
+            let e = match k.as_str() {
+                "timeout" => ConnectionErrorIncoming::Timeout,
+                _ => ConnectionErrorIncoming::InternalError("injected by the transport".to_string()),
+            };
+            return Poll::Ready(Err(StreamErrorIncoming::ConnectionErrorIncoming { connection_error: e }));
         }
         if let Some(c) = s.rx.pop_front() {
             return Poll::Ready(Ok(Some(c)));
